@@ -11,7 +11,7 @@ PROP = {
             "encodings (hex lower / upper case, everything escaped, unreserved characters escaped at random, mixed-case hex); distinct = FNV of the path; "
             "non-trivial = the path contains a non-alphanumeric character and >= 3 alternative encodings were checked",
     "min_nontrivial": {"quick": 200000, "thorough": 5000000},
-    "max_secs": {"quick": 60, "thorough": 900},
+    "max_secs": {"quick": 600, "thorough": 1500},
     "require_clauses": ["a:roundtrip", "b:alternative-encodings-decode", "c:same-file-id"],
     "assumptions": COMMON_ASSUME + [
         "Linux path semantics only: the Windows branch of uri_to_file_path is cfg!(windows) and unreachable here",
